@@ -69,6 +69,13 @@ def run(ctx):
         if not inserts:
             continue
         group_loops += 1
+        # every mapping is filed: each continuing path performs exactly one insertion and tests nothing but
+        # whether the group exists
+        for p in paths:
+            ins_here = [e for (q, e) in inserts if q is p]
+            data = [ev for ev in p.events if ev.kind == "guard" and not (isinstance(ev.a, tuple) and ev.a[0] == "variantof")]
+            ck.ob("C03-R1", mh.path, "every-mapping-is-filed-in-exactly-one-group(unconditionally)", len(ins_here) == 1 and not data,
+                  detail=None if (len(ins_here) == 1 and not data) else "%d insertions on an iteration, extra conditions: %s" % (len(ins_here), [show(ev.a)[:50] for ev in data]))
         it_dir = il.elem[1][2] if isinstance(il.elem, tuple) else None
         ck.ob("C03-R1", mh.path, "groups-built-in-one-forward-pass-over-layout.mappings", it_dir == "fwd" and il.complete and not il.break_paths)
         elem = il.elem
@@ -172,6 +179,18 @@ def run(ctx):
                   not unk and want is not None and got == want, detail="continue=%s, specification (held&!absorbed)|is_new=%s %s" % (got, want, unk or ""))
         ck.floor("C03-T1", "table-rows", nrows, 5)
 
+    # the "held" set that is_supported consults is kept exact: every acted-on press records the key on every
+    # return path, every acted-on release forgets it on every return path
+    rets = [fx for fx in K.path_fx(np_) if fx.tag == "fn" and fx.path.outcome[0] == "return"]
+    okp = bool(rets) and all(any(e.kind == "ADD" and e.lst == "IP" and e.key == k for e in fx.effects) for fx in rets)
+    ck.ob("C03-T1", NP, "held-set-exact:pressed-key-is-recorded-on-every-return-path", okp,
+          detail=None if okp else "a return path of newly_press does not push the pressed key onto input_pressed_keys: later chords that need it as a held trigger key would not be satisfied")
+    nr = ctx.body(MOD + "newly_release")
+    rk = T("param", 2, nr.dbg.get(2, ""))
+    rets = [fx for fx in K.path_fx(nr) if fx.tag == "fn" and fx.path.outcome[0] == "return"]
+    okr = bool(rets) and all(any(e.kind == "RETAIN" and e.lst == "IP" and ktx.Analysis._retain_removes_key(e) == rk for e in fx.effects) for fx in rets)
+    ck.ob("C03-T1", nr.path, "held-set-exact:released-key-is-forgotten-on-every-return-path", okr)
+
     # ---------------- R3 outputs
     anm = ctx.body(ANM)
     m = T("param", 3, anm.dbg.get(3, ""))
@@ -219,7 +238,8 @@ def run(ctx):
             continue
         own = [e for e in fx.effects if e.kind == "EMIT" and e.aux == "Pressed" and e.key == k]
         if own:
-            later = [e for e in fx.effects if e.pos > own[0].pos and (e.kind in ("EMIT", "MAPEMIT", "APPEND") or (e.kind == "CALL"))]
+            pure = mir._pure_local_predicates(ctx.F)
+            later = [e for e in fx.effects if e.pos > own[0].pos and (e.kind in ("EMIT", "MAPEMIT", "APPEND") or (e.kind == "CALL" and e.key not in pure))]
             ck.ob("C03-R4", NP, "pass-through-press-is-the-last-event-of-the-step", not later, detail=None if not later else str(later[0]))
         # the active-mapping scan found the key (left through its break arm): nothing is emitted
         for pe in fx.path.events:
@@ -230,7 +250,8 @@ def run(ctx):
                     idx = fx.path.events.index(pe)
                     after = [e for e in fx.effects if e.pos > idx]
                     quiet = all(e.kind == "ADD" and e.lst == "IP" for e in after)
-                    emitted = [e for e in fx.effects if e.kind in ("EMIT", "MAPEMIT") or (e.kind == "CALL" and e.key != MOD + "StepResult::empty")]
+                    pure = mir._pure_local_predicates(ctx.F)
+                    emitted = [e for e in fx.effects if e.kind in ("EMIT", "MAPEMIT") or (e.kind == "CALL" and e.key != MOD + "StepResult::empty" and e.key not in pure)]
                     ck.ob("C03-R4", NP, "key-mentioned-by-a-mapping-in-effect:nothing-emitted,only-input_pressed-updated", quiet and not emitted,
                           detail=None if (quiet and not emitted) else "effects %s" % fx.effects)
 
